@@ -4,9 +4,9 @@ CONSTANTS
   Faults = {"start", "run", "exit", "stop"}
   AwaitStoppingInner = TRUE
   LateStart = FALSE
-INIT InitWide
+INIT InitMain
 NEXT Next
 VIEW view
-INVARIANTS TypeOK StopOrderState FailurePropagates
+INVARIANTS TypeOK StopOrderState FailurePropagates FailureIsReported
 PROPERTIES StartAfterDeps StopAfterDependants
 CHECK_DEADLOCK TRUE
